@@ -7,6 +7,11 @@ _NOTE = ("Trusted: Coq 8.16.1 kernel + vm_compute; the Go harness (generators, p
          "differential evaluation on generated inputs, not by proof; ")
 
 TEXT = {
+    "C03": {
+        "level": "Number equality is proved an equivalence for all numbers; Equals/RawEquals agreement on primitives and null equality are theorems; the hash-bucket set algorithm is proved to refine the mathematical set modulo any equivalence that is coherent with its hash (membership, no two equal members, exactly the inputs, insertion-order independence; all Add histories), and the model's set operations on strings are proved to be that algorithm. Hash coherence and trichotomy are refuted for numbers by kernel-computed witnesses that every run replays on the implementation (known findings). Values, hashes, iteration orders and whole ValueSet histories are compared with the implementation state by state.",
+        "note": _NOTE + "structural RawEquals/Equals laws on nested values are oracle-checked, not yet theorems (partial).",
+        "technique": "Coq proof (generic set-refinement + number-equality equivalence) + refutation witnesses + model/implementation correspondence by vm_compute",
+    },
     "C07": {
         "level": "Type.Equals/TestConformance/HasDynamicTypes/WithoutOptionalAttributesDeep/type JSON codec are modelled in Gallina as implemented; the algebraic laws are theorems for all types (unbounded depth/width), closed under the global context; the model is compared with the implementation on generated types and JSON documents on every run.",
         "note": _NOTE + "capsule types by identity only; attribute-name normalisation as a shipped table.",
